@@ -39,3 +39,10 @@ package types
 
 //@ contract interface ICS4Wrapper.GetAppVersion
 //@   ensures world(ctx) == old(world(ctx))
+
+// Sending a packet through the ICS-4 wrapper (core IBC or a middleware stack ending in it) writes IBC stores; it is
+// assumed not to move bank balances (A-core-no-bank: core IBC has no bank keeper; stated as an assumption for
+// middleware)
+//@ contract interface ICS4Wrapper.SendPacket
+//@   modifies world(ctx)
+//@   ensures ledger_untouched: ledger(ctx) == old(ledger(ctx))
